@@ -3049,9 +3049,12 @@ package gocql
 //@   ensures old(validhost(h)) ==> validhost(h)
 //@   ensures same(h.hostId, old(h.hostId)) || old(h.hostId) == ""
 
+// stores the partitioner name under its lock
 //@ func (c *clusterMetadata) setPartitioner
-//@   trusted stores the partitioner name under its lock
+//@   props C16
+//@   requires c != nil
 //@   modifies *c
+//@   ensures c.partitioner == partitioner
 
 //@ func (recv HostSelectionPolicy) SetPartitioner
 //@   interface
